@@ -17,7 +17,7 @@ Proof. destruct a as [[]| | |], b as [[]| | |]; cbn; congruence. Qed.
 Lemma obs_cells_complete : map fst obs_edges = all_cells.
 Proof. vm_compute. reflexivity. Qed.
 
-Lemma all_cells_count : length all_cells = 320.
+Lemma all_cells_count : length all_cells = 340.
 Proof. vm_compute. reflexivity. Qed.
 
 Lemma obs_edges_eq_doc_b :
@@ -69,8 +69,9 @@ Lemma stmt_scopes_eq_doc :
                     Bool.eqb (mem_scope s error_stmt_scopes) (doc_allows s AErrorStmt)) all_scopes = true.
 Proof. vm_compute. reflexivity. Qed.
 
-(* the linter's expects lists are the documented return states, except that the linter does not
-   list `error` for vcl_pass (where the error statement itself is allowed) *)
+(* the linter's return-action lists are the documented return states, except that the linter (and the
+   reference table of C05) does not list `error` for vcl_pass, where the error statement itself is
+   allowed and the simulator treats return(error) like it *)
 Definition linter_omits (s : scope) (r : rstate) : bool :=
   match s, r with Pass, SError => true | _, _ => false end.
 
